@@ -288,6 +288,38 @@ def stage_falsy_results(report, dist):
         shutil.rmtree(d, ignore_errors=True)
 
 
+def stage_custom_cache(report, dist, prop):
+    """C03 / C06, directed: whether a task is cached is for its type's cache to say.  A cache class that also finds results in a shared
+    read-only store reports them as cached: such tasks (and what only they depend on) are loaded, not executed."""
+    import shutil
+    import tempfile
+    from labtech.lab import Lab
+    from common import subdir
+    d = tempfile.mkdtemp(dir=subdir('customcache'))
+    try:
+        for backend in ('serial', 'fork'):
+            leaf = U.V2(x=('leaf', backend))
+            shared = U.VShared(x=leaf)
+            top = U.VV(x=shared)
+            U.FallbackCache.SHARED.clear()
+            U.FallbackCache.SHARED[shared.cache_key] = ('from the shared store', backend)
+            lab = Lab(storage=os.path.join(d, backend), runner_backend=backend, max_workers=2, notebook=False)
+            before = U.VRUN_COUNT[0]
+            cached = lab.is_cached(shared)
+            res = lab.run_tasks([shared], disable_progress=True, disable_top=True)
+            dist['custom_cache_runs'] += 1
+            ran_in_caller = U.VRUN_COUNT[0] - before
+            leaf_stored = lab.is_cached(leaf)
+            if not cached or res.get(shared) != ('from the shared store', backend) or ran_in_caller or leaf_stored:
+                report.violation(f'{prop}:cached-but-executed', f'{backend} backend: a task whose cache class reports it as cached (it finds the result in a shared read-only store) '
+                                                                f'-> is_cached={cached}, run_tasks returned {res.get(shared)!r}, its dependency was {"executed and stored" if leaf_stored else "left alone"}: '
+                                                                'the cache class was not asked', dict(level='custom-cache', backend=backend))
+                return
+    finally:
+        U.FallbackCache.SHARED.clear()
+        shutil.rmtree(d, ignore_errors=True)
+
+
 def stage_displays_on(report, dist):
     """C01, directed: the value run_tasks returns does not depend on its display options: with the task monitor and the progress
     bars switched on, any top_n (fewer rows than active tasks, none), the same dict comes back."""
@@ -474,6 +506,10 @@ def run(prop, report, tier, seed, replay=None):
             return
     if prop in ('C10', 'C11') and (replay is None or replay['input'].get('level') == 'die-in-run'):
         stage_die_with_monitor(report, dist, prop)
+        if replay is not None:
+            return
+    if prop == 'C03' and (replay is None or replay['input'].get('level') == 'custom-cache'):
+        stage_custom_cache(report, dist, prop)
         if replay is not None:
             return
     if prop == 'C01' and (replay is None or replay['input'].get('level') == 'displays'):
